@@ -141,6 +141,13 @@ def api_cases(ctx, budget):
         if r in rules:
             for tail in ('', '\n', '\n\n', ' ', 'x', '\n\x0f\n'):
                 out.append((t + tail, [r, r]))
+    # EVERY rule name as start symbol through the entry point, on small texts that some rules take and most refuse (a keyword line, a
+    # marker line, a word, a nest): the name a caller passes selects the rule of that name, whatever else the name may mean
+    small = ['INDENT 1 - Heading\n', 'SECTION 1.\n', '\x0e\n', '\x0f\n', 'x\n', 'hello', 'PART A - Heading\n\x0e\ntext\n\x0f\n', 'CROSSHEADING foo\n', '\n', 'LIST 1\n', 'TITLE\n', 'P x\n',
+             'BODY\n', 'TABLE\n\x0e\nTR\n\x0e\nTC\n\x0e\nc\n\x0f\n\x0f\n\x0f\n', 'ITEMS\n\x0e\nITEM (a)\n\x0e\nx\n\x0f\n\x0f\n', '{{^x}}', ' - h', '.cls', 'SCHEDULE\n']
+    for r in sorted(rules):
+        for t in small:
+            out.append((t, [r]))
     return out
 
 def api_stream(ctx, budget, sink):
